@@ -48,6 +48,11 @@
 
 enum { UP = 0, DOWN = 1 };
 typedef struct { int dir, size, to, delay; } TSpec;      /* timeout in ms (= ticks), delay = ticks the server takes to answer */
+/* the delay field also carries the server's segment filling for uploads: delay = ticks + 16 * (7 - data bytes per non-final segment).
+ * CiA 301 gives every upload segment its own n; a conforming server may send 6, 4 or 1 data bytes in a segment that is not the last */
+#define T_DELAY(t) ((t).delay & 15)
+#define T_CHUNK(t) (7 - (((t).delay >> 4) & 7))
+#define WITH_CHUNK(delay, chunk) ((delay) + 16 * (7 - (chunk)))
 typedef struct { int kind, k, arg; } Dev;
 enum { D_NONE, D_ABORT, D_ABORT_IDX, D_ABORT_SUB, D_SILENT, D_LATE_IDLE, D_LATE_NEXT, D_TOGGLE, D_FOREIGN, D_SIZE_MORE,
        D_SIZE_LESS, D_EXP_FOR_SEG, D_SEG_FOR_EXP, D_MORE_DATA, D_LESS_DATA, D_BUSYREQ, D_IDLE_BEFORE, D_CHAIN, D_NKINDS };
@@ -285,7 +290,7 @@ static void srv_response(uint8_t *f, int *last)
     } else {
         uint32_t n; int c;
         if (H.off < H.os) {
-            n = H.os - H.off > 7 ? 7 : H.os - H.off;
+            n = H.os - H.off > (uint32_t)T_CHUNK(H.t) ? (uint32_t)T_CHUNK(H.t) : H.os - H.off;
             for (uint32_t j = 0; j < 7; j++) f[1 + j] = j < n ? SRV(H.seq, H.off + j) : 0xDD;
             H.off += n; c = (H.off == H.os && H.extra == 0);
         } else {
@@ -505,7 +510,7 @@ static int tr_step(Dev dv)
         if (dv.kind == D_LATE_NEXT) { H.stale = 1; memcpy(H.stale_frm, f, 8); }
         return 0;
     }
-    for (int i = 0; i < H.t.delay; i++) { do_tick(); expect_quiet("while the server prepares its answer", "csdo-callback-count", 1); if (FAILED) return 0; }
+    for (int i = 0; i < T_DELAY(H.t); i++) { do_tick(); expect_quiet("while the server prepares its answer", "csdo-callback-count", 1); if (FAILED) return 0; }
     switch (dv.kind) {
     case D_ABORT:
         /* arg 0: an ordinary abort code; arg 1..6: the codes the client itself uses for its own verdicts (timeout, toggle, command,
@@ -552,7 +557,7 @@ static void idle_gap(int g)
 static int skip_mask, only_dev;
 static int menu(Dev *out, int has_next, int mode)
 {
-    int n = 0, k = H.k, S = H.t.size, K = S > 4 ? 1 + (S + 6) / 7 : 1, m = 0;
+    int n = 0, k = H.k, S = H.t.size, CH = H.t.dir == UP ? T_CHUNK(H.t) : 7, K = S > 4 ? 1 + (S + CH - 1) / CH : 1, m = 0;
     Dev all[40];
 #define ADD(kind_, arg_) do { all[m].kind = (kind_); all[m].k = k; all[m].arg = (arg_); m++; } while (0)
     if (mode == 2) {                 /* end variants of a short first transfer */
@@ -566,7 +571,7 @@ static int menu(Dev *out, int has_next, int mode)
         if (k >= 1) ADD(D_TOGGLE, 0);
         for (int a = 0; a < 5; a++) if (!foreign_expected(a)) ADD(D_FOREIGN, a);
         if (H.t.dir == UP && k == 0) { ADD(D_SIZE_MORE, 0); if (S > 1) ADD(D_SIZE_LESS, 0); if (S > 5) ADD(D_EXP_FOR_SEG, 0); if (S <= 4) ADD(D_SEG_FOR_EXP, 0); }
-        if (H.t.dir == UP && k >= 1) { if (k == K - 1) { ADD(D_MORE_DATA, 0); if (S % 7) ADD(D_MORE_DATA, 1); } else ADD(D_LESS_DATA, 0); }
+        if (H.t.dir == UP && k >= 1) { if (k == K - 1) { ADD(D_MORE_DATA, 0); if (S - (K - 2) * CH < 7) ADD(D_MORE_DATA, 1); } else ADD(D_LESS_DATA, 0); }
     }
 #undef ADD
     for (int i = 0; i < m; i++) {
@@ -666,7 +671,7 @@ static void run_sequence(const int *cid, int n)
     for (int i = 0; i < nt && !FAILED; i++) {
         const int *c = cid + 2 + 8 * i; TSpec t = { c[0], c[1], c[2], c[3] }; Dev dv = { c[4], c[5], c[6] }; int act, applied = 0;
         if (t.size < 1 || t.size > MAXSIZE || t.to < 1 || t.delay < 0) { fprintf(stderr, "c19: bad case\n"); return; }
-        mc_log("  --- transfer %d: gap %d, %s %d bytes, timeout %d, server delay %d, deviation %s at step %d (arg %d)\n", i, c[7], t.dir == UP ? "upload" : "download", t.size, t.to, t.delay, DEVNAME[dv.kind % D_NKINDS], dv.k, dv.arg);
+        mc_log("  --- transfer %d: gap %d, %s %d bytes, timeout %d, server delay %d (%d data bytes per segment), deviation %s at step %d (arg %d)\n", i, c[7], t.dir == UP ? "upload" : "download", t.size, t.to, T_DELAY(t), T_CHUNK(t), DEVNAME[dv.kind % D_NKINDS], dv.k, dv.arg);
         idle_gap(c[7]); if (FAILED) break;
         tr_prepare(i, &t);
         if (dv.kind == D_IDLE_BEFORE) { uint8_t f[8]; foreign(dv.arg, f); idle_rx(f, "when a response arrives while the client is idle"); if (FAILED) break; }
@@ -717,14 +722,18 @@ static int SIZES[320], NSIZES;
 static const int PROF[4][2] = { {2, 0}, {2, 1}, {5, 0}, {5, 4} };         /* timeout, server delay */
 static const TSpec PROBE[8] = { {UP, 12, 5, 4}, {DOWN, 12, 5, 4}, {UP, 3, 5, 4}, {DOWN, 3, 5, 4}, {UP, 3, 2, 1}, {UP, 12, 2, 1}, {DOWN, 3, 2, 1}, {DOWN, 12, 2, 1} };
 static const TSpec FIRST[8] = { {UP, 3, 2, 0}, {UP, 12, 2, 0}, {DOWN, 3, 2, 0}, {DOWN, 12, 2, 0}, {UP, 3, 5, 0}, {UP, 12, 5, 0}, {DOWN, 3, 5, 0}, {DOWN, 12, 5, 0} };
-static TSpec CAND[4 * 320]; static int NCAND;
+static TSpec CAND[7 * 320]; static int NCAND;
 
 static void all_candidates(int dir, int shard, int nshard)
 {
     int smax = mc_opt("smax", MAXSIZE), smin = mc_opt("smin", 1);
     NCAND = 0;
-    for (int i = 0; i < NSIZES; i++) if (i % nshard == shard && SIZES[i] <= smax && SIZES[i] >= smin)
+    for (int i = 0; i < NSIZES; i++) if (i % nshard == shard && SIZES[i] <= smax && SIZES[i] >= smin) {
         for (int p = 0; p < 4; p++) { TSpec t = { dir, SIZES[i], PROF[p][0], PROF[p][1] }; CAND[NCAND++] = t; }
+        if (dir == UP && SIZES[i] > 4) {          /* servers that do not fill their segments */
+            TSpec t6 = { dir, SIZES[i], 5, WITH_CHUNK(0, 6) }; CAND[NCAND++] = t6;
+            if (SIZES[i] <= 40) { TSpec t4 = { dir, SIZES[i], 5, WITH_CHUNK(0, 4) }, t1 = { dir, SIZES[i], 2, WITH_CHUNK(1, 1) }; CAND[NCAND++] = t4; CAND[NCAND++] = t1; }
+        }    }
 }
 
 static void setup(void)
